@@ -116,6 +116,45 @@ def records(tier, seed):
                      "finished": steps <= 4 * bound + 10, "minmask": log["minmask"][:steps], "ndone": log["ndone"][:steps],
                      "undone": log["undone"][:steps], "note": note, "skipped": False})
 
+    # NON-DEFAULT sampling options (nucleus / top-k / temperature): the filters act on the masked logits just before the
+    # softmax, so they too must never leave a row without an action -- in particular on a step with ONE feasible action
+    # (probability 1 > top_p), e.g. the last node of a TSP tour or a finished row of a mixed batch
+    _roll = roll
+
+    def roll_opts(name, env, td, note, **opts):
+        bound = bound_of(name, td, env)
+        log = {"minmask": [], "ndone": [], "undone": [], "prev_done": None}
+        policy = make_uniform_policy(name, log)
+        try:
+            with torch.no_grad():
+                out = policy(td.clone(), env, decode_type="sampling", max_steps=4 * bound + 10, calc_reward=False, **opts)
+        except Exception as e:      # noqa: BLE001
+            import traceback
+            site = [f for f in traceback.extract_tb(e.__traceback__) if "/rl4co/" in f.filename]
+            if not site:
+                raise
+            recs.append({"env": name, "B": int(td.shape[0]), "steps": len(log["minmask"]), "bound": int(bound), "finished": False,
+                         "minmask": [], "ndone": [], "undone": [], "note": note, "skipped": True,
+                         "crash": "%s at %s:%d after %d decoding steps: %s" % (type(e).__name__, site[-1].filename.split("/rl4co/")[-1],
+                                                                               site[-1].lineno, len(log["minmask"]), str(e)[:120])})
+            return
+        steps = out["actions"].shape[1]
+        recs.append({"env": name, "B": int(td.shape[0]), "steps": int(steps), "bound": int(bound),
+                     "finished": steps <= 4 * bound + 10, "minmask": log["minmask"][:steps], "ndone": log["ndone"][:steps],
+                     "undone": log["undone"][:steps], "note": note, "skipped": False})
+
+    rnd_o = random.Random(977 + seed)       # own stream: the draws of the other blocks stay what they were
+    for name in ("tsp", "cvrp", "op", "pctsp", "fjsp"):
+        for opts in ({"top_p": 0.5}, {"top_p": 0.9, "temperature": 0.5}, {"top_k": 2}, {"top_k": 3, "top_p": 0.3}):
+            try:
+                env = get_env(name, generator_params={} if name == "fjsp" else {"num_loc": 6})
+                td = env.reset(batch_size=[rnd_o.choice([1, 5, 16])])
+            except Exception:       # noqa: BLE001
+                continue
+            if bound_of(name, td, env) is None:
+                continue
+            roll_opts(name, env, td, "sampling options %s" % opts, **opts)
+
     for rep in range(2 if tier == "quick" else 6):
         k = rnd.choice([4, 6, 9])
         coord = np.array([[40, 50]] + [[rnd.randint(0, 100), rnd.randint(0, 100)] for _ in range(k)], dtype=float)
